@@ -4,6 +4,7 @@
 -/
 import XzVerif.Model.Crc
 import XzVerif.Gen.C14
+import XzVerif.Lemmas.Crc
 
 namespace XzVerif.C14
 open XzVerif.Crc
@@ -14,6 +15,26 @@ theorem crc32_table_correct : Gen.C14.crc32Table = genTable P32 8 := by decide +
 
 theorem crc64_table_correct : Gen.C14.crc64Table = genTable P64 4 := by decide +kernel
 
+/-- `lzma_crc32_generic` (alignment prologue, slice-by-eight loop, byte tail) over the tables that are in the source
+    today returns the standard CRC-32 for every buffer, every pointer alignment and every initial value. -/
+theorem crc32_generic_eq_ref (align : Nat) (bs : List UInt8) (init : BitVec 32) :
+    crc32Generic Gen.C14.crc32Table align bs init = crc32Ref bs init := by
+  rw [crc32_table_correct]; exact crc32Generic_genTable align bs init
+
+/-- `lzma_crc64_generic` (slice-by-four) likewise. -/
+theorem crc64_generic_eq_ref (align : Nat) (bs : List UInt8) (init : BitVec 64) :
+    crc64Generic Gen.C14.crc64Table align bs init = crc64Ref bs init := by
+  rw [crc64_table_correct]; exact crc64Generic_genTable align bs init
+
+/-- The result does not depend on the memory alignment of the buffer. -/
+theorem crc32_alignment_indep (a1 a2 : Nat) (bs : List UInt8) (init : BitVec 32) :
+    crc32Generic Gen.C14.crc32Table a1 bs init = crc32Generic Gen.C14.crc32Table a2 bs init := by
+  rw [crc32_generic_eq_ref, crc32_generic_eq_ref]
+
+theorem crc64_alignment_indep (a1 a2 : Nat) (bs : List UInt8) (init : BitVec 64) :
+    crc64Generic Gen.C14.crc64Table a1 bs init = crc64Generic Gen.C14.crc64Table a2 bs init := by
+  rw [crc64_generic_eq_ref, crc64_generic_eq_ref]
+
 /-- Computing over a buffer in consecutive pieces gives the same value as in one piece. -/
 theorem crc32_chunking (a b : List UInt8) (init : BitVec 32) :
     crc32Ref (a ++ b) init = crc32Ref b (crc32Ref a init) := by
@@ -22,6 +43,17 @@ theorem crc32_chunking (a b : List UInt8) (init : BitVec 32) :
 theorem crc64_chunking (a b : List UInt8) (init : BitVec 64) :
     crc64Ref (a ++ b) init = crc64Ref b (crc64Ref a init) := by
   simp [crc64Ref, refRaw, List.foldl_append]
+
+/-- Chunking for the table-driven implementation model: any split, any alignments of the two pieces. -/
+theorem crc32_generic_chunking (a1 a2 a3 : Nat) (a b : List UInt8) (init : BitVec 32) :
+    crc32Generic Gen.C14.crc32Table a2 b (crc32Generic Gen.C14.crc32Table a1 a init)
+      = crc32Generic Gen.C14.crc32Table a3 (a ++ b) init := by
+  simp only [crc32_generic_eq_ref, crc32_chunking]
+
+theorem crc64_generic_chunking (a1 a2 a3 : Nat) (a b : List UInt8) (init : BitVec 64) :
+    crc64Generic Gen.C14.crc64Table a2 b (crc64Generic Gen.C14.crc64Table a1 a init)
+      = crc64Generic Gen.C14.crc64Table a3 (a ++ b) init := by
+  simp only [crc64_generic_eq_ref, crc64_chunking]
 
 /-- non-vacuity / sanity: the classic check value of "123456789". -/
 example : crc32Ref [0x31,0x32,0x33,0x34,0x35,0x36,0x37,0x38,0x39] 0 = 0xCBF43926#32 := by decide +kernel
